@@ -1,6 +1,28 @@
 from props import _generic, _table
+from vlib import scan
+from vlib.report import Finding
+
+
+def frame_scan(rep, tier):
+  """Syntactic frame obligation (C05): the edge sets `next` / `prev` are written only by the primitives that
+  are under contract (GraphBuilder._connect_nodes, Node.__init__, Node.freeze) and CFG nodes are created only
+  by GraphBuilder._add_new_node -- so every other builder method preserves the mirror invariant because it
+  can only reach the edge sets through those primitives."""
+  sites, bad = scan.attr_writers('malt.pyct.cfg', {'next', 'prev'},
+                                 {'Node.__init__', 'Node.freeze', 'GraphBuilder._connect_nodes'},
+                                 ctor='Node', ctor_allowed={'GraphBuilder._add_new_node'})
+  cov = rep.coverage
+  cov.setdefault('frame_scans', []).append(dict(
+      obligation='frame-scan/cfg-edge-sets', backend='ast-scan', sites_checked=sites, holds=not bad,
+      statement='in malt/pyct/cfg.py, .next/.prev are assigned or mutated only in Node.__init__, Node.freeze and '
+                'GraphBuilder._connect_nodes; Node(...) is constructed only in GraphBuilder._add_new_node'))
+  for b in bad:
+    rep.add_finding(Finding('C05', 'scan:cfg-edge-sets:%s' % b['function'],
+                            'frame-scan/cfg-edge-sets: %s in %s (line %d): the edge sets are no longer written only by the '
+                            'primitives under contract' % (b['what'], b['function'], b['line']), replay=b, concrete=False))
 
 
 def run(tier, seed):
   t = _table.TABLE['C05']
-  return _generic.standard('C05', t['level'], tier, seed, bounded=t['bounded'], explanation=t['explanation'])
+  return _generic.standard('C05', t['level'], tier, seed, bounded=t['bounded'], explanation=t['explanation'],
+                           shape=frame_scan)
